@@ -32,7 +32,7 @@ CASE = int(os.environ.get("VF_CASE", "0"))
 ORACLE = os.environ.get("VF_ORACLE", "C02")
 KIND = CASE
 _DTM = None
-DT_MAX = int(os.environ.get("VF_DT_MAX", "150" if KIND in (3, 4, 6, 7) else "300"))
+DT_MAX = int(os.environ.get("VF_DT_MAX_CHARGE", "150") if KIND in (3, 4, 6, 7) else os.environ.get("VF_DT_MAX", "300"))
 
 PLUG_KINDS = (3, 4, 7)
 REQ_KINDS = (9, 12)
